@@ -5,7 +5,7 @@ import os
 import shutil
 
 from lib.verif import *
-from props import c09_paths
+from props import c09_paths, c09_prov
 
 THEOREMS = [
     "C09_sound", "C09_complete", "C09_failure_names_violated_rule",
@@ -20,7 +20,12 @@ HARNESS = ["htlcswitch/verif_policy_test.go", "htlcswitch/verif_policy_paths_tes
 # keys of a path row (c09_paths) that are observations, not inputs
 PATH_OBS = ("pkgs", "calls", "settled", "forwarded", "alice_ok", "alice_err", "alice_arg", "fired", "note",
             "wall_ms", "out_scid", "chanbw")
-WARM = [{"pkg": "htlcswitch", "files": HARNESS}]
+PROV_PKG = "routing/localchans"
+PROV_HARNESS = ["localchans/verif_policy_prov_test.go"]
+PROV_OBS = ("prov", "step", "chan", "in_chan", "probe", "passed_ibase", "passed_irate", "replay_scenario")
+PEER_HARNESS = ["peer/verif_linkpolicy_test.go"]
+WARM = [{"pkg": "htlcswitch", "files": HARNESS}, {"pkg": PROV_PKG, "files": PROV_HARNESS},
+        {"pkg": "peer", "files": PEER_HARNESS}]
 IMPORTS = ("From Coq Require Import List ZArith NArith.\nImport ListNotations.\n"
            "From LV Require Import Policy.Model Policy.Exec.\n"
            # lib.coq_mismatches parses `(i%N, [..])` with a regex that does not survive
@@ -263,7 +268,123 @@ def sel_predicate(c):
 
 
 def inputs_of(c):
-    return {k: v for k, v in c.items() if k not in ("case", "cls", "name") + PATH_OBS}
+    return {k: v for k, v in c.items() if k not in ("case", "cls", "name") + PATH_OBS + PROV_OBS}
+
+
+def judge_prov(ctx, vrows, suffix=""):
+    """Policy-provenance predicates (c09_prov) on the rows of the localchans
+    harness.  Returns (prov rows, boundary-HTLC rows, #prov rows with a finding)."""
+    prov = [r for r in vrows if r.get("kind") == "prov"]
+    hrows = [r for r in vrows if r.get("kind") == "fwd"]
+    nbad = 0
+    shown = {}
+    for r in prov:
+        fs = c09_prov.judge(r)
+        if not fs:
+            continue
+        nbad += 1
+        for thm, msg, sig in fs:
+            key = sig.split(" ")[0]
+            if shown.get(key, 0) >= 2 or sum(shown.values()) >= 5:
+                continue
+            shown[key] = shown.get(key, 0) + 1
+            probes = [h for h in hrows if h["prov"] == r["scenario"] and h["step"] == r["step"]
+                      and h["chan"] == r["chan"] and predicate(h)]
+            ctx.violation("impl_violates_predicate", thm + suffix,
+                          {"case": dict(r, replay_scenario=c09_prov.scenario_blob(prov, r)), "fails": [msg],
+                           "boundary_htlcs_deciding_wrongly": [
+                               {"probe": h["probe"], "out": h["out"], "in": h["in"], "result": h["name"],
+                                "fails": predicate(h)} for h in probes[:4]]},
+                          signature="policy provenance %s: %s" % (r["scenario"].split(":", 1)[-1], sig),
+                          failing_input=True)
+    for h in hrows:
+        h["replay_scenario"] = None
+    bad_h = [h for h in hrows if predicate(h)]
+    for h in bad_h[:40]:
+        h["replay_scenario"] = c09_prov.scenario_blob(prov, {"scenario": h["prov"]})
+    return prov, hrows, nbad
+
+
+def judge_linkcreate(ctx, lrows_all, suffix=""):
+    lrows = [r for r in lrows_all if r.get("kind") == "linkcreate"]
+    hrows = [r for r in lrows_all if r.get("kind") == "fwd"]
+    nbad = 0
+    for r in lrows:
+        for thm, msg, sig in c09_prov.judge_linkcreate(r):
+            nbad += 1
+            if nbad > 3:
+                continue
+            inc = sig == "incomplete"
+            probes = [h for h in hrows if h["prov"] == r["scenario"] and predicate(h)]
+            ctx.violation("harness_failed" if inc else "impl_violates_predicate", thm + suffix,
+                          {"case": dict(r, replay_linkcreate=True), "fails": [msg],
+                           "boundary_htlcs_deciding_wrongly": [
+                               {"probe": h["probe"], "out": h["out"], "in": h["in"], "result": h["name"],
+                                "fails": predicate(h)} for h in probes[:4]]},
+                          signature="policy provenance linkcreate %s: %s" % (r["scenario"], sig),
+                          failing_input=not inc)
+    return lrows, hrows, nbad
+
+
+def replay_linkcreate(ctx, c):
+    """--replay of a link-creation case: the (small, fully enumerated) stage is run again."""
+    ctx.proof_stage(MODULE, THEOREMS, TARGETS)
+    rc, trace, out = run_harness(ctx.uid("r"), "peer", PEER_HARNESS, "^TestVerifLinkPolicyFromGraph$")
+    lall = read_jsonl(trace)
+    if rc != 0 or not lall:
+        ctx.violation("harness_failed", "TestVerifLinkPolicyFromGraph", {"log": out[-4000:]},
+                      signature="harness", failing_input=False)
+        return
+    lrows, hrows, nbad = judge_linkcreate(ctx, lall, " (replay)")
+    nh = 0
+    for h in hrows:
+        f = predicate(h)
+        if f:
+            nh += 1
+            if nh <= 3:
+                ctx.violation("impl_violates_predicate", "C09 replay", {"case": h, "fails": f},
+                              signature="policy linkcreate %s %s: %s" % (h["probe"], h["name"], f[0]))
+    ctx.note("replayed link creation from the graph: %d links, %d with findings; %d boundary HTLCs, %d decided "
+             "against the advertised policy" % (len(lrows), nbad, len(hrows), nh))
+    ctx.cov.update({"evaluations": len(hrows), "distinct_nontrivial": distinct_count(hrows, inputs_of),
+                    "traces_validated_against_impl": len(hrows), "rule": "replayed link-creation stage",
+                    "samples": [inputs_of(hrows[0])] if hrows else [],
+                    "link_creation": c09_prov.coverage_linkcreate(lrows, hrows)})
+
+
+def replay_prov(ctx, c):
+    """--replay of a provenance case: the same world + update history through the
+    real Manager.UpdatePolicy and the real links of the current tree."""
+    ctx.proof_stage(MODULE, THEOREMS, TARGETS)
+    blob = c["replay_scenario"]
+    rc, trace, out = run_harness(ctx.uid("r"), PROV_PKG, PROV_HARNESS, "^TestVerifPolicyProvenance$",
+                                 env={"VERIF_PV_SCENARIO": json.dumps(blob)})
+    vrows = read_jsonl(trace)
+    if rc != 0 or not vrows:
+        ctx.violation("harness_failed", "TestVerifPolicyProvenance", {"log": out[-4000:]},
+                      signature="harness", failing_input=False)
+        return
+    prov, hrows, nbad = judge_prov(ctx, vrows, " (replay)")
+    nh = 0
+    for h in hrows:
+        f = predicate(h)
+        if f:
+            nh += 1
+            if nh <= 3:
+                ctx.violation("impl_violates_predicate", "C09 replay", {"case": h, "fails": f},
+                              signature="policy prov %s %s: %s" % (h["probe"], h["name"], f[0]))
+    ok, bad, logs = coq_mismatches(ctx.uid("r"), IMPORTS, [case_term(h) for h in hrows],
+                                   mism="mismatches_all", scope="Z_scope")
+    if bad or not ok:
+        ctx.violation("correspondence_mismatch", "Policy.Exec.check_case (replay)",
+                      {"case": hrows[bad[0][0]] if bad else None, "model": bad[:5], "logs": logs},
+                      signature="policy mismatch replay", failing_input=bool(nh))
+    ctx.note("replayed provenance scenario %s: %d channel states, %d with findings; %d boundary HTLCs, "
+             "%d decided against the advertised policy" % (blob["name"], len(prov), nbad, len(hrows), nh))
+    ctx.cov.update({"evaluations": len(hrows), "distinct_nontrivial": distinct_count(hrows, inputs_of),
+                    "traces_validated_against_impl": len(hrows),
+                    "rule": "single replayed provenance scenario", "samples": [inputs_of(hrows[0])],
+                    "provenance": c09_prov.coverage(prov, hrows)})
 
 
 def judge_paths(ctx, prows, theorem_suffix=""):
@@ -328,6 +449,10 @@ def replay(ctx):
         return run(ctx)
     if c.get("path") and c.get("spec"):
         return replay_path(ctx, c)
+    if c.get("replay_scenario"):
+        return replay_prov(ctx, c)
+    if c.get("replay_linkcreate") or str(c.get("cls", "")).startswith("linkcreate:"):
+        return replay_linkcreate(ctx, c)
     ctx.proof_stage(MODULE, THEOREMS, TARGETS)
     rc, trace, out = run_harness(ctx.uid("r"), "htlcswitch", HARNESS, "^TestVerifPolicy$",
                                  env={"VERIF_REPLAY_CASE": json.dumps(inputs_of(c)), "VERIF_CASES": "0"})
@@ -363,8 +488,27 @@ def run(ctx):
         return replay(ctx)
     if ctx.thorough:
         ncases = {"VERIF_CASES": os.environ.get("VERIF_CASES", "400000")}
-    rc, trace, out = run_harness(ctx.uid(), "htlcswitch", HARNESS, "^TestVerifPolicy(Paths)?$",
-                                 env=ncases, timeout=1500)
+    # the two harness packages compile and run side by side
+    from concurrent.futures import ThreadPoolExecutor
+    with ThreadPoolExecutor(max_workers=3) as ex:
+        fut_l = ex.submit(run_harness, ctx.uid("l"), "peer", PEER_HARNESS, "^TestVerifLinkPolicyFromGraph$",
+                          timeout=900)
+        fut_v = ex.submit(run_harness, ctx.uid("v"), PROV_PKG, PROV_HARNESS, "^TestVerifPolicyProvenance$",
+                          timeout=900)
+        rc, trace, out = run_harness(ctx.uid(), "htlcswitch", HARNESS, "^TestVerifPolicy(Paths)?$",
+                                     env=ncases, timeout=1500)
+        rcv, tracev, outv = fut_v.result()
+        rcl, tracel, outl = fut_l.result()
+    lall = read_jsonl(tracel)
+    if rcl != 0 or not lall:
+        ctx.violation("harness_failed", "TestVerifLinkPolicyFromGraph", {"log": outl[-4000:]},
+                      signature="harness", failing_input=False)
+        return
+    vrows = read_jsonl(tracev)
+    if rcv != 0 or not vrows:
+        ctx.violation("harness_failed", "TestVerifPolicyProvenance", {"log": outv[-4000:]},
+                      signature="harness", failing_input=False)
+        return
     allrows = read_jsonl(trace)
     rows = [c for c in allrows if c["kind"] != "select"]
     sel = [c for c in allrows if c["kind"] == "select"]
@@ -380,6 +524,17 @@ def run(ctx):
     npath_bad, pdec = judge_paths(ctx, prows)
     first_path_row = len(rows)
     rows += pdec
+    # ---- provenance stage: Manager.UpdatePolicy -> gossiper / switch -> real
+    # links; the boundary HTLCs (recorded against the ADVERTISED policy) join
+    # the ordinary rows as well.
+    prov, hrows, nprov_bad = judge_prov(ctx, vrows)
+    first_prov_row = len(rows)
+    rows += hrows
+    # ---- link creation from the graph (Brontide.loadActiveChannels): created
+    # policy = own advertised edge policy; its boundary HTLCs join the rows too.
+    lrows, lhrows, nlink_bad = judge_linkcreate(ctx, lall)
+    first_link_row = len(rows)
+    rows += lhrows
     # ---- property predicate on the implementation's answers
     nfail = 0
     judged = 0
@@ -393,7 +548,8 @@ def run(ctx):
                 ctx.violation("impl_violates_predicate", "C09_sound/C09_complete/C09_failure_names_violated_rule",
                               {"case": c, "fails": f, "clauses": clauses(c)},
                               signature="policy %s %s: %s" % (
-                                  ("path " + c["path"]) if c.get("path") else c["kind"], c["name"], f[0]))
+                                  ("path " + c["path"]) if c.get("path") else
+                                  ("%s %s" % (c["cls"].split(":")[0], c["probe"])) if c.get("prov") else c["kind"], c["name"], f[0]))
     # ---- the Coq witnesses (theorems *_refuted_outside) replayed on the real code
     expect = {"witness:accept-expired": (0, 0), "witness:reject-valid": (5, 0),
               "witness:fee-overflow": (0, 0), "example:boundary": None}
@@ -447,7 +603,9 @@ def run(ctx):
     kslice = 3000 if ctx.thorough else 400
     stride = max(1, len(rows) // kslice)
     kidx = sorted(set(range(min(5, len(rows)))) | set(range(0, len(rows), stride)) | set(flagged[:60])
-                  | set(range(first_path_row, len(rows))))
+                  | set(range(first_path_row, first_prov_row))
+                  | set(range(first_prov_row, first_link_row, max(1, len(hrows) // 300)))
+                  | set(range(first_link_row, len(rows))))
     if not verd:
         kidx = list(range(len(rows)))       # extraction unavailable: everything in the kernel
     terms = [case_term(rows[i]) for i in kidx]
@@ -546,6 +704,8 @@ def run(ctx):
                                for k in sorted({c["name"] for c in sel})},
         "selection_mismatches": len(sbad) + nsel_fail,
         "witness_replays_on_real_code": wit,
+        "provenance": dict(c09_prov.coverage(prov, hrows), channel_states_with_findings=nprov_bad),
+        "link_creation": dict(c09_prov.coverage_linkcreate(lrows, lhrows), links_with_findings=nlink_bad),
         "paths": dict(c09_paths.coverage(prows), rows_with_findings=npath_bad,
                       rows_joined_to_predicate_and_model=len(pdec)),
     })
